@@ -391,7 +391,7 @@ func NewKeyFromPublic(pub crypto.PublicKey) (*Key, error) {
 			return nil, fmt.Errorf("unsupported curve: %v", vk.Curve)
 		}
 
-		return NewKeyEC2(alg, vk.X.Bytes(), vk.Y.Bytes(), nil)
+		return NewKeyEC2(alg, coordinateBytes(vk.X), coordinateBytes(vk.Y), nil)
 	case ed25519.PublicKey:
 		return NewKeyOKP(AlgorithmEdDSA, []byte(vk), nil)
 	default:
@@ -410,12 +410,23 @@ func NewKeyFromPrivate(priv crypto.PrivateKey) (*Key, error) {
 			return nil, fmt.Errorf("unsupported curve: %v", sk.Curve)
 		}
 
-		return NewKeyEC2(alg, sk.X.Bytes(), sk.Y.Bytes(), sk.D.Bytes())
+		return NewKeyEC2(alg, coordinateBytes(sk.X), coordinateBytes(sk.Y), sk.D.Bytes())
 	case ed25519.PrivateKey:
 		return NewKeyOKP(AlgorithmEdDSA, []byte(sk[32:]), []byte(sk[:32]))
 	default:
 		return nil, ErrInvalidPrivKey
 	}
+}
+
+// coordinateBytes returns the big-endian encoding of an EC point coordinate
+// without leading zeros, like big.Int.Bytes, except that the coordinate 0
+// becomes a single zero byte instead of an empty slice: an empty coordinate
+// means "absent" to the key validation and is not padded by MarshalCBOR.
+func coordinateBytes(v *big.Int) []byte {
+	if b := v.Bytes(); len(b) > 0 {
+		return b
+	}
+	return []byte{0}
 }
 
 var (
